@@ -411,6 +411,7 @@ where
             return;
         };
         let transitions_fail = self.matcher.all_transitions(fail_state).collect_vec();
+        let matches_fail = self.matcher.matches(fail_state).clone();
         for transition in self.matcher.all_constraint_transitions(state).collect_vec() {
             let target = self.matcher.split_target(transition);
             self.recently_added.insert(target.0);
@@ -420,6 +421,11 @@ where
                     self.matcher.next_state(t),
                     self.matcher.constraint(t).cloned(),
                 );
+            }
+            // The fail state is skipped when `transition` is taken: the patterns
+            // it accepts must be accepted at `target` too.
+            for (pattern, bindings) in matches_fail.clone() {
+                self.matcher.add_match(target, pattern, bindings);
             }
         }
     }
